@@ -156,6 +156,9 @@ static void exec_conc(const Plan &p, RunResult &r) {
     auto setup = [&]() {
         sh.kc = get_key(sp, p.cfg.getu("kseed"));
         ParamSpec s2; s2.name = "S"; s2.n = 5; s2.k = sp.k == 1 ? 2 : 1; s2.l = 3; s2.Bgbit = 8; s2.t = 4; s2.basebit = 3; s2.a_ks = 1e-7; s2.a_bk = 1e-9;
+        // with a default set the "other key" of the histories is the other default set: a thread that has evaluated with a key
+        // of one large dimension then evaluates with another (per-thread scratch sized by the first key would show)
+        if (sp.name == "P128") s2 = ParamSpec::P80(); else if (sp.name == "P80") s2 = ParamSpec::P128();
         sh.kc2 = get_key(s2, 99);
         sh.ck = sh.kc->ck;
         kc = sh.kc;
